@@ -24,6 +24,7 @@ func init() {
 			"(R9) config.handleOptionUpdate (the write path of the injected config database) calls pushUpdate on every path on which its push parameter is set; " +
 			"(R10) every possibly successful return of Controller.Put - put, shadow delete or immediate delete - is preceded by notifySubscribers; " +
 			"(R11) sibling agreement (A14): runPostGetHooks ~ runPrePutHooks (the record-phase hook runners hold the hook lock, filter and call alike); " +
+			"(R12) the subscriber filter sees the flags the record was stored with: the generated Meta (de)serialiser reads each flag from the byte it was written to (= C08-R3, flag bytes); " +
 			"NOT decided: exactly-once/in-order delivery over write histories, behaviour when the feed buffer is full.",
 		Rules: []ruleFn{c14R1, c14R2, c14R3, c14R4,
 			lockRuleFor("C14-R5", 20, []string{"database", "database/record"}, []string{}, map[string]string{}),
@@ -32,7 +33,8 @@ func init() {
 				return p == "database" && (inFile(c, fn, "subscription.go") || inFile(c, fn, "hook.go") || inFile(c, fn, "hookbase.go") || inFile(c, fn, "controller.go"))
 			}, map[string]string{}),
 			borrowRule(c03R5, "C03-R5", "C14-R7", 2, nil),
-			c14R8, c14R9, c14R10, func(c *Ctx, r *Report) { siblingRule(c, r, "C14-R11", sibHooks) }},
+			c14R8, c14R9, c14R10, func(c *Ctx, r *Report) { siblingRule(c, r, "C14-R11", sibHooks) },
+			borrowRule(c08R3, "C08-R3", "C14-R12", 1, func(s string) bool { return strings.Contains(s, "flag bytes") })},
 	})
 }
 
